@@ -132,6 +132,18 @@ def step (_ : Unit) (ws : List String) : Unit × String :=
           let hc := es.foldl (fun h e => (h * 1000003 + e.cSize) % 18446744073709551616) 0
           let hd := es.foldl (fun h e => (h * 1000003 + e.dSize) % 18446744073709551616) 0
           s!"ok n={n}" ++ String.join cells ++ s!" sums={String.ofList (Nat.toDigits 16 hc)}:{String.ofList (Nat.toDigits 16 hd)}")
+  | ["tblser", hx] =>
+      -- writer model against the real writer's bytes: the table the model serializes from the loaded entries must be the tail of the archive
+      let b := if hx == "-" then ByteArray.empty else ByteArray.ofHex hx
+      ((), match Seekable.load b with
+        | .error _ => "err"
+        | .ok (es, ck) =>
+          let ser := Seekable.serialize es ck
+          let n := ser.length
+          if n > b.size then "longer"
+          else
+            let tail := (List.range n).map (fun i => b.u8 (b.size - n + i))
+            if tail == ser then "same" else "DIFFERENT")
   | ["idx", hx, ps] =>
       let b := if hx == "-" then ByteArray.empty else ByteArray.ofHex hx
       ((), match Seekable.load b with
